@@ -953,6 +953,9 @@ class Builder:
         vals = [scale * 2, 0, scale, -scale, mx, mx + scale, -256, -257, 255, 256 if scale > 1 else 4096]
         if scale > 1:
             vals += [1, scale + 1, mx - 1]
+            # multiples of a smaller access size: unaligned for this form, so only the unscaled fallback (if any) may take them
+            h = scale // 2
+            vals += [h, scale + h, 256 + h, mx - h]
         return vals
 
     def off_valid(self, cls, mode, o):
